@@ -255,8 +255,9 @@ ForNext(s) ==
       r  == fr.rs
       x  == fr.x
       Done == RetPop(PopScope(s), VNone)
-      Go(s2, v, r2) == Block([Update(s2, IF x.nm = "" THEN "_" ELSE x.nm, v)
-                               EXCEPT !.k = Append(PopK(s2), [fr EXCEPT !.rs = r2])], x.ss)
+      \* the body is a block: it runs in a scope of its own, made anew for every iteration (spec.md Scope)
+      Go(s2, v, r2) == Block(PushScope([Update(s2, IF x.nm = "" THEN "_" ELSE x.nm, v)
+                                         EXCEPT !.k = Append(PopK(s2), [fr EXCEPT !.rs = r2])]), x.ss)
   IN CASE r.t = "step" /\ ~(Small(r.cur) /\ Small(r.lim) /\ Small(r.stp)) -> Unspec(s)
        [] r.t = "step" ->
             IF (IsPos(r.stp) /\ NumLe(r.lim, r.cur)) \/ (IsNeg(r.stp) /\ NumLe(r.cur, r.lim))
@@ -733,7 +734,7 @@ Continue(s, v) ==
     [] fr.f = "forL" -> LET vs == Append(fr.vs, v)
                         IN IF Len(vs) < Len(fr.x.xs) THEN EvalRepl(s, fr.x.xs[Len(vs) + 1], [fr EXCEPT !.vs = vs])
                            ELSE ForInit(s, fr.x, vs)
-    [] fr.f = "forB" -> ForNext(s)
+    [] fr.f = "forB" -> ForNext(PopScope(s))          \* the scope of the body that has just ended goes first
     [] fr.f = "callU" -> RetPop([s EXCEPT !.env = <<s.env[1]>> \o fr.sv, !.tenv = <<s.tenv[1]>> \o fr.tv], VNone)
     [] OTHER -> Stuck(s)
 
@@ -745,7 +746,9 @@ Unwind(s) ==
       brk == s.ctl.m = "brk"
   IN CASE fr.f = "seq"  -> [s EXCEPT !.k = PopK(s)]
        [] fr.f = "blk"  -> [PopScope(s) EXCEPT !.k = PopK(s)]
-       [] fr.f \in {"whB", "forB"} -> IF brk THEN RetPop(PopScope(s), VNone) ELSE [PopScope(s) EXCEPT !.k = PopK(s)]
+       [] fr.f = "whB" -> IF brk THEN RetPop(PopScope(s), VNone) ELSE [PopScope(s) EXCEPT !.k = PopK(s)]
+       \* leaving a for loop from inside its body: the scope of the body and the scope of the loop variable
+       [] fr.f = "forB" -> IF brk THEN RetPop(PopScope(PopScope(s)), VNone) ELSE [PopScope(PopScope(s)) EXCEPT !.k = PopK(s)]
        [] fr.f = "callU" -> IF brk THEN Stuck(s) ELSE RetPop([s EXCEPT !.env = <<s.env[1]>> \o fr.sv, !.tenv = <<s.tenv[1]>> \o fr.tv], s.ctl.v)
        [] OTHER -> Stuck(s)
 
